@@ -5,6 +5,7 @@ mod app;
 mod common;
 mod ledger;
 mod rng;
+mod splitneutral;
 mod symbase;
 
 use std::io::Write;
@@ -61,6 +62,15 @@ fn main() {
                 } else {
                     symbase::run_case(&format!("Y{}-{}", seed, i), &mut cr, &mut s);
                 }
+                w.write_all(s.as_bytes()).unwrap();
+            }
+        }
+        "splitneutral" => {
+            let mut r = rng::Rng::new(seed ^ 0xC15);
+            for i in 0..count {
+                let mut cr = r.fork();
+                let mut s = String::new();
+                splitneutral::run_case(&format!("N{}-{}", seed, i), &mut cr, &mut s);
                 w.write_all(s.as_bytes()).unwrap();
             }
         }
